@@ -232,6 +232,7 @@ int gc_gen(cs_t *cs, gcase_t *c, const runcfg_t *cfg, int prop) {
         if (r->fam == FAM_QUERY && (r->fl & F_SRC)) c->val = cs_range(cs, 0, 1);
     }
     c->out_null = (r->out_kind != OUT_NONE || r->ret_kind == RK_PTR_ERRP) ? cs_range(cs, 0, 39) == 0 : 0;
+    if (r->fl & F_NONULL) c->dest_null = c->src_null = c->out_null = 0;
     c->alpha = (int)cs_range(cs, 0, 3);
     c->cseed = (uint32_t)cs_noise(cs, 0, 0xffffff);
     return 1;
